@@ -331,13 +331,23 @@ def sec_selfcheck(rep, seed):
     rep.add(Ob("C09/selfcheck/canary-refuted", "canary", PROVED if bad else "error", "z3", 0, f"'<' instead of '<=' at the threshold: refuted={len(bad)}"))
 
 
+def sec_point_use(rep):
+    """'is evaluated at the slow-rescaling variable': what ESF.compute_local does with the value
+    of convolution_point() -- it is both the convolution point handed to convolve_vector and the
+    prefactor of the result, per kernel (symbolic cp_k).  This is the compute_local contract of C01,
+    re-discharged here because the CC statement of C09 rests on it."""
+    from . import c01
+
+    c01.sec_compute_local(rep)
+
+
 def run(rep, tier, seed, only=None):
     rep.assume(
         "A-ext: LeProHQ and the N3LO splines are uninterpreted (contract stubs that record being reached)",
         "conv.convolution is exercised with an eko basis-function stub (A-eko) and scipy.integrate.quad must not be reached on the zero paths",
     )
     rep.stub("LeProHQ.* -> uninterpreted recording stub", "heavy.n3lo.interpolator -> uninterpreted recording stub", "scipy.integrate.quad -> must-not-be-called stub", "eko BasisFunction -> BasisStub")
-    for nm, f in (("predicate", sec_threshold_predicate), ("decorator", sec_decorator), ("closures", sec_closures), ("cc", sec_cc), ("masses", sec_generator_masses), ("ccarg", sec_cc_argument_only)):
+    for nm, f in (("predicate", sec_threshold_predicate), ("decorator", sec_decorator), ("closures", sec_closures), ("cc", sec_cc), ("masses", sec_generator_masses), ("ccarg", sec_cc_argument_only), ("point_use", sec_point_use)):
         if only and only not in nm:
             continue
         rep.add(guarded(f"C09/{nm}", lambda f=f: (f(rep), [])[1]))
